@@ -46,6 +46,7 @@ def removed(run, d, bins, cases):
     # nested structures whose graphs had causaloids REMOVED again: recount + reachability oracles of C11's second phase
     import props.c11 as c11
     c11.removed_phase(run, d, bins, None)
+    big_phase(run, bins)
 
 
 def main():
